@@ -2,7 +2,7 @@
 
 use super::common::*;
 use crate::engine::*;
-use crate::instr::{calls_to_string, Call, Rec, Win};
+use crate::instr::{calls_to_string, Call, Hi, Lo, Rec, Win};
 use crate::oracles::*;
 use crate::spaces::*;
 use serde_json::{json, Value};
@@ -130,6 +130,42 @@ pub fn check_pair(alg: Algorithm, old: &[u8], new: &[u8]) -> Result<PairOutcome,
             }
         }
     }
+    // generic instantiations callers are free to use: a ring buffer whose storage wraps around
+    // (VecDeque is Index<usize>) against a Vec; different element types on the two sides that
+    // compare equal across types but hash differently; and ONE sequence object on both sides
+    // with two ranges into it
+    {
+        let mut dq: std::collections::VecDeque<u8> = std::collections::VecDeque::with_capacity(n + 3);
+        for _ in 0..2 {
+            dq.push_back(9);
+        }
+        for _ in 0..2 {
+            dq.pop_front();
+        }
+        for &x in old.iter().skip(n / 2) {
+            dq.push_back(x);
+        }
+        for &x in old.iter().take(n / 2).rev() {
+            dq.push_front(x);
+        }
+        let newv: Vec<u8> = new.to_vec();
+        let got = raw_stream(alg, 0, &dq, 0..n, &newv, 0..m).map_err(|e| format!("old in a VecDeque, new in a Vec: {}", e))?;
+        validate_stream(&got, old, 0..n, new, 0..m, true)
+            .map_err(|e| format!("old in a VecDeque, new in a Vec: {} [stream: {}]", e, calls_to_string(&got)))?;
+        let lo: Vec<Lo> = old.iter().map(|&x| Lo(x as u32)).collect();
+        let hi: Vec<Hi> = new.iter().map(|&x| Hi(x as u64)).collect();
+        let got = raw_stream(alg, 0, &lo[..], 0..n, &hi[..], 0..m).map_err(|e| format!("old items of type Lo(u32), new items of type Hi(u64): {}", e))?;
+        validate_stream(&got, old, 0..n, new, 0..m, true)
+            .map_err(|e| format!("old items of type Lo(u32), new items of type Hi(u64): {} [stream: {}]", e, calls_to_string(&got)))?;
+        let both: Vec<u8> = old.iter().chain(new.iter()).copied().collect();
+        let got = raw_stream(alg, 0, &both[..], 0..n, &both[..], n..n + m)
+            .map_err(|e| format!("one sequence {:?} on both sides, ranges {:?} and {:?}: {}", both, 0..n, n..n + m, e))?;
+        validate_stream(&got, &both, 0..n, &both, n..n + m, true).map_err(|e| {
+            format!("one sequence {:?} on both sides, ranges {:?} and {:?}: {} [stream: {}]", both, 0..n, n..n + m, e, calls_to_string(&got))
+        })?;
+        runs += 3;
+        transitions += 3 * got.len() as u64;
+    }
     Ok(PairOutcome {
         nontrivial: n > 0 && m > 0 && old != new && st.equal_calls > 0 && st.change_calls > 0,
         transitions,
@@ -160,6 +196,7 @@ pub fn run(cfg: &RunCfg) -> CheckReport {
         "every (algorithm, old, new) with the pair drawn from the listed scopes (P(k,n) = all ordered pairs of sequences over k symbols of length <= n; R(L) = every equality pattern of total length <= L cut at every position; later scopes skip pairs of earlier ones, so cases are distinct by construction); each case runs 6 full-range entry points plus 8 sub-range embeddings (4 offset pairs x {window Index that panics outside the range, adversarially padded slices}). Non-trivial: both sides non-empty, sequences differ, and the stream contains at least one equal and one change call.",
     );
     rep.assume("oracle: cursor automaton + differential comparison with the run on the extracted slices; element type u8");
+    rep.assume("each case additionally runs three generic instantiations: old in a VecDeque whose storage wraps around against new in a Vec; old items of type Lo(u32) against new items of type Hi(u64) (equal across the types, different hashes); one sequence object on both sides with two ranges into it");
     let space = PairSpace::new(scopes(cfg.tier));
     let ex = explore(cfg, space.nshards(), |shard, acc| {
         space.for_each(shard, |old, new| {
